@@ -304,6 +304,8 @@ where
 
 fn outcome_class<E>(r: &Run<E>) -> &'static str {
     match &r.result {
+        // every case starts with at least one population on the stack
+        Ok(Ok(())) if r.stack.is_empty() => "removes-the-population",
         Ok(Ok(())) => "ok",
         Ok(Err(_)) => "err",
         Err(_) => "panic",
@@ -621,6 +623,18 @@ fn perm_components(rep: &Reporter, rng: &mut SplitMix64, n: usize) {
             match mutation::SwapMutation::new::<Perm>(k as u32) {
                 Ok(c) => ops.push((format!("SwapMutation({})", if k == 2 { "2" } else if k == dim { "dimension" } else { "between" }), c, Some(k))),
                 Err(e) => rep.violation(&format!("SwapMutation:constructor-rejects-documented-value:{}", if k == 2 { "2" } else { "k>2" }), json!({"num_swap": k, "error": e.to_string()})),
+            }
+        }
+        // more swaps than positions: refused when there is a solution to apply it to - and a refused step leaves the
+        // population as it was
+        if let Ok(c) = mutation::SwapMutation::new::<Perm>(dim as u32 + 1) {
+            rep.case();
+            let r = run_comp(&problem, c.as_ref(), &[pop.clone()], seed, true);
+            let unchanged = r.stack.len() == 1 && r.stack[0].iter().map(|x| &x.0).eq(pop.iter());
+            let refused = matches!(r.result, Ok(Err(_)));
+            if matches!(r.result, Err(_)) || (size > 0 && !refused) || (refused && !unchanged) {
+                let kind = if refused { "refused-step-changes-or-loses-the-population" } else { "more-swaps-than-positions-not-refused" };
+                rep.violation(&format!("SwapMutation:{kind}"), json!({"num_swap": dim + 1, "dimension": dim, "population_size": size, "result": format!("{:?}", r.result), "populations_after": r.stack.len()}));
             }
         }
         for (name, comp, swaps) in ops {
